@@ -36,7 +36,7 @@ class Held:
         k = op[0]
         if k == "fall":
             self.items = []          # every call, including the mementos' own, was forgotten
-        if k in ("fcall", "ffn"):
+        if k in ("fcall", "ffn", "memoize_bad"):
             def own(m):
                 fr = m.invocation_metadata.fn_reference_with_args
                 qn = fr.fn_reference.qualified_name
@@ -54,7 +54,7 @@ class Held:
                 got = sw.tag_of(twin.read_result(m))
             except Exception as e:
                 got = "err:" + type(e).__name__
-            if got != B:
+            if got != sw.canon_tag(B):
                 fails.append(dict(clause="memento-reads-own-bytes", memento=sw.World.mid_of(m), expected=B, got=got,
                                   content_key=str(m.content_key)))
                 break
@@ -98,6 +98,15 @@ CORPUS = [
     [["memoize", 1, 1, None, 1000], ["memoize", 4, 1, None, 1000], ["memoize", 1, 2, None, 1000], ["fcall", 1, 1], ["lookread", 4, 1]],
     [["memoize", 1, 1, None, 1], ["memoize", 4, 1, None, 1000], ["memoize", 4, 2, None, 1003], ["ffn", 1], ["lookread", 4, 1], ["lookread", 4, 2]],
     [["memoize", 1, 1, 1, 1001], ["memoize", 4, 1, 1, 1002], ["lookread", 1, 1], ["memoize", 4, 2, 1, 1001], ["fcall", 4, 1], ["lookread", 1, 1], ["lookread", 4, 2]],
+    # partitions staged on disk: their values share the objects of equal plain results and of equal in-memory partitions
+    [["memoize", 1, 1, None, 1], ["memoize", 4, 1, None, 1008], ["memoize", 4, 2, None, 1000], ["memoize", 1, 2, None, 1008], ["lookread", 4, 1], ["ffn", 1], ["lookread", 4, 2]],
+    [["memoize", 1, 1, 1, 1009], ["memoize", 4, 1, 1, 1010], ["lookread", 1, 1], ["memoize", 4, 2, None, 1001], ["lookread", 4, 1]],
+    # a partition whose last value cannot be serialised: the failed write must leave the objects other mementos read alone
+    [["memoize", 1, 1, None, 1], ["memoize", 1, 2, None, 10], ["memoize", 4, 1, None, 1000], ["memoize_bad", 4, 2, None, 1016], ["lookread", 1, 1], ["lookread", 1, 2], ["lookread", 4, 1]],
+    [["memoize", 1, 1, 1, 1001], ["memoize_bad", 4, 1, 1, 1017], ["lookread", 1, 1], ["memoize", 4, 1, 1, 1002], ["lookread", 1, 1], ["lookread", 4, 1]],
+    # two writes to one override key while the process-wide random generator is in the same state (bodies that seed it)
+    [["rseed", 7], ["memoize", 1, 1, 1, 3], ["rseed", 7], ["memoize", 4, 1, 1, 5], ["lookread", 1, 1], ["lookread", 4, 1]],
+    [["rseed", 1], ["memoize", 1, 1, 2, 1001], ["rseed", 1], ["memoize", 1, 2, 2, 1002], ["lookread", 1, 1], ["rseed", 1], ["memoize", 4, 1, None, 6], ["rseed", 1], ["memoize", 4, 2, None, 7], ["lookread", 4, 1]],
 ]
 
 
@@ -111,7 +120,7 @@ def main(chk, replay=None):
                 "c/ equals its name, one version per content key, every memento handed out so far (whose own call was not "
                 "forgotten) re-reads its creation-time bytes through a cache-less twin backend. Distinct = distinct "
                 "(config, ops); non-trivial = >= 2 memoize ops. Every third history also memoizes partitions (index + per-key "
-                "blobs); those run against the scanner and the dictionary only (partitions are outside the Lean op language).")
+                "blobs; in memory, staged on disk, and ones whose last value cannot be serialised so that the write fails half way); those run against the scanner and the dictionary only (partitions are outside the Lean op language). Every third history re-seeds the process-wide random generator before its writes (bodies that seed it).")
     proof_ok = chk.build_and_audit()
     quick = chk.tier == "quick"
     rng = chk.rng
@@ -140,8 +149,8 @@ def main(chk, replay=None):
     for ops in CORPUS:
         go(ops, "corpus")
     for i in range(n):
-        go(sw.gen_ops(rng, rng.randint(4, 22 if quick else 50), fns=[1, 2, 4, 5], override_rate=0.3, nvals=14,
-                      part_rate=0.4 if i % 3 == 2 else 0.0), "random")
+        go(sw.gen_ops(rng, rng.randint(4, 22 if quick else 50), fns=[1, 2, 4, 5], override_rate=0.3 if i % 3 != 1 else 0.6, nvals=14,
+                      part_rate=0.4 if i % 3 == 2 else 0.0, seed_rate=0.5 if i % 3 == 1 else 0.0), "random")
         if failures > 3:
             break
 
